@@ -37,6 +37,21 @@ def is_hdr10plus(msg):
 
 
 def gen_sei(r, with_hdr):
+    if with_hdr and r.random() < 0.25:
+        # seam case: no emulation prevention byte anywhere in the source NAL, but cutting the HDR10+ message out
+        # brings the zero bytes that end the message before it against a first byte <= 3 of the message after it
+        if r.random() < 0.6:
+            prev = (r.choice([5, 129, 200]), H.filler(r, r.choice([1, 9])) + b"\x00\x00")
+            nxt = (r.choice([0, 1, 2, 3]), H.filler(r, r.choice([1, 4, 30])))          # 00 00 | 0x
+        else:
+            prev = (r.choice([5, 129, 200]), H.filler(r, r.choice([1, 9])) + b"\x00")
+            nxt = (0, H.filler(r, r.choice([1, 2, 3])))                                # 00 | 00 0x (type 0, size <= 3)
+        msgs = [prev, (4, H.hdr10plus_payload(r, r.choice([5, 30, 260]))), nxt]
+        if r.random() < 0.3:
+            msgs.insert(0, (r.choice([1, 137]), H.filler(r, 6)))
+        if r.random() < 0.3:
+            msgs.append((r.choice([6, 144]), H.filler(r, 6)))
+        return msgs
     n = r.choice([1, 1, 2, 3, 4])
     msgs = []
     for _ in range(n):
@@ -150,7 +165,7 @@ def run(res):
     res.coverage.update({
         "evaluations": len(nl) + 2 * nrun,
         "distinct_nontrivial": len(set(nl)),
-        "rule": "prefix SEI NALs with 1..4 messages (assorted payload types, sizes incl. 254/255/256/300/600 with FF extension bytes, payloads holding 00 00 0x, T.35 messages of another provider, wrong application version, truncated header; HDR10+ first / middle / last / alone), checked at NAL level against an independent SEI walker and inside generated streams through convert / demux / remove with and without --drop-hdr10plus (outputs compared with the Coq routing model and walked independently); distinct SEI NALs counted",
+        "rule": "prefix SEI NALs with 1..4 messages (assorted payload types, sizes incl. 254/255/256/300/600 with FF extension bytes, payloads holding 00 00 0x, T.35 messages of another provider, wrong application version, truncated header; HDR10+ first / middle / last / alone; seam cases: no emulation prevention byte in the source NAL but the cut brings 00 00 or 00 of the message before against a first byte <= 3 of the message after), checked at NAL level against an independent SEI walker and inside generated streams through convert / demux / remove with and without --drop-hdr10plus (outputs compared with the Coq routing model and walked independently); distinct SEI NALs counted",
         "sei_nals_in_streams": nsei, "cli_runs": nrun,
         "samples": [nl[0][:120], nl[1][:120]],
     })
